@@ -162,4 +162,137 @@ theorem C08_map_exact (env : CompileEnv) (t : Tx) (inputs : List TxIn)
   · cases h1
   · exact h1
 
+/-! ### mint / burn and reward redeemers -/
+
+/-- The policies collected for a block are policies of that block's asset entries (or were there
+before): each is the 28-byte hash read from the policy position of some entry. -/
+theorem policies_sound : ∀ (n : Nat) (cs : List Expr) (acc ps : List Bytes), cs.length ≤ n →
+    compileMintRedeemers.policies cs acc = .ok ps →
+    ∀ p ∈ ps, p ∈ acc ∨ ∃ pe ∈ cs, ∃ pb, exprIntoBytes pe = .ok pb ∧ bytesIntoHash 28 pb = .ok p := by
+  intro n
+  induction n with
+  | zero =>
+    intro cs acc ps hl h p hp
+    cases cs with
+    | nil => rw [compileMintRedeemers.policies] at h; cases h; exact Or.inl hp; intro _ _ _ _ hh; cases hh
+    | cons _ _ => simp at hl
+  | succ n ih =>
+    intro cs acc ps hl h p hp
+    match cs with
+    | [] => rw [compileMintRedeemers.policies] at h; cases h; exact Or.inl hp; intro _ _ _ _ hh; cases hh
+    | [_] => rw [compileMintRedeemers.policies] at h; cases h; exact Or.inl hp; intro _ _ _ _ hh; cases hh
+    | [_, _] => rw [compileMintRedeemers.policies] at h; cases h; exact Or.inl hp; intro _ _ _ _ hh; cases hh
+    | pe :: a :: b :: rest =>
+      rw [compileMintRedeemers.policies] at h
+      obtain ⟨pb, hpb, h⟩ := bind_eq_ok.mp h
+      obtain ⟨ph, hph, h⟩ := bind_eq_ok.mp h
+      have hr : rest.length ≤ n := by simp at hl; omega
+      rcases ih rest _ ps hr h p hp with h1 | ⟨pe', hpe', hh⟩
+      · split at h1
+        · exact Or.inl h1
+        · rcases List.mem_append.mp h1 with h2 | h2
+          · exact Or.inl h2
+          · simp only [List.mem_singleton] at h2
+            subst h2
+            exact Or.inr ⟨pe, by simp, pb, hpb, hph⟩
+      · exact Or.inr ⟨pe', by simp [hpe'], hh⟩
+
+/-- **Mint and burn redeemers point at a policy of their own block.** Every entry produced comes
+from a mint/burn block that carries a redeemer, carries that block's data, has tag 1, and its index
+is the position — among the sorted distinct minted policies — of a policy read from one of that
+block's asset entries. -/
+theorem C08_mint_sound {blocks : List Mint} {mint : List (Bytes × Bytes × Int)}
+    {rs : List ((Nat × Nat) × PData)} (h : compileMintRedeemers blocks mint = .ok rs) :
+    ∀ r ∈ rs, ∃ m ∈ blocks, m.redeemer.isNone = false ∧ tryAsData m.redeemer = .ok r.2 ∧ r.1.1 = 1 ∧
+      ∃ cs, exprIntoAssets m.amount = .ok cs ∧ ∃ p, (mintPolicies mint)[r.1.2]? = some p ∧
+        ∃ pe ∈ cs, ∃ pb, exprIntoBytes pe = .ok pb ∧ bytesIntoHash 28 pb = .ok p := by
+  unfold compileMintRedeemers at h
+  try simp only at h
+  obtain ⟨per, hper, h⟩ := bind_eq_ok.mp h
+  cases h
+  intro r hr
+  obtain ⟨block, hblock, hrb⟩ := List.mem_flatten.mp hr
+  obtain ⟨m, hm, hfm⟩ := mapMO_ok_mem hper block hblock
+  split at hfm
+  · cases hfm; cases hrb
+  · rename_i hred
+    obtain ⟨cs, hcs, hfm⟩ := bind_eq_ok.mp hfm
+    split at hfm
+    · cases hfm
+    · obtain ⟨ps, hps, hfm⟩ := bind_eq_ok.mp hfm
+      obtain ⟨p, hp, hfp⟩ := mapMO_ok_mem hfm r hrb
+      split at hfp
+      · rename_i ix hix
+        obtain ⟨d, hd, hfp⟩ := bind_eq_ok.mp hfp
+        cases hfp
+        rcases policies_sound cs.length cs [] ps (Nat.le_refl _) hps p hp with h1 | h1
+        · cases h1
+        · exact ⟨m, hm, by simpa using hred, hd, rfl, cs, hcs, p, indexOf?_get hix, h1⟩
+      · cases hfp
+
+/-- **Withdrawal redeemers point at their own reward account.** Every entry produced comes from a
+`withdrawal` directive that carries a redeemer, carries that directive's data, has tag 3, and its
+index is the position of the directive's reward account among the withdrawal keys. -/
+theorem C08_reward_sound {env : CompileEnv} {t : Tx} {ws : List (Bytes × Int)}
+    {rs : List ((Nat × Nat) × PData)} (h : compileWithdrawalRedeemers env t ws = .ok rs) :
+    ∀ r ∈ rs, ∃ d ∈ t.adhoc, adhocName d = "withdrawal" ∧ ∃ re, adhocGet d "redeemer" = some re ∧
+      tryAsData re = .ok r.2 ∧ r.1.1 = 3 ∧ ∃ cred acct, adhocGet d "credential" = some cred ∧
+        exprIntoRewardAccount env cred = .ok acct ∧ (ws.map (·.1))[r.1.2]? = some acct := by
+  unfold compileWithdrawalRedeemers at h
+  obtain ⟨per, hper, h⟩ := bind_eq_ok.mp h
+  cases h
+  intro r hr
+  obtain ⟨block, hblock, hrb⟩ := List.mem_flatten.mp hr
+  obtain ⟨d, hd, hfd⟩ := mapMO_ok_mem hper block hblock
+  obtain ⟨hd1, hd2⟩ := List.mem_filter.mp hd
+  split at hfd
+  · cases hfd; cases hrb
+  · rename_i re hre
+    split at hfd
+    · cases hfd; cases hrb
+    · obtain ⟨cred, hcred, hfd⟩ := bind_eq_ok.mp hfd
+      obtain ⟨acct, hacct, hfd⟩ := bind_eq_ok.mp hfd
+      split at hfd
+      · rename_i ix hix
+        obtain ⟨dd, hdd, hfd⟩ := bind_eq_ok.mp hfd
+        cases hfd
+        simp only [List.mem_singleton] at hrb
+        subst hrb
+        have hc : adhocGet d "credential" = some cred := by
+          cases hg : adhocGet d "credential" with
+          | none => rw [hg] at hcred; cases hcred
+          | some e => rw [hg] at hcred; cases hcred; rfl
+        exact ⟨d, hd1, by simpa using hd2, re, hre, hdd, rfl, cred, acct, hc, hacct, indexOf?_get hix⟩
+      · cases hfd
+
+/-- **C08, on the compiled transaction.** Every redeemer of a successfully compiled transaction is
+attached to the item it was written for: a spend redeemer to a UTxO of its own input block (index in
+the sorted distinct body inputs), a mint redeemer to a policy of its own mint or burn block (index
+among the sorted distinct minted policies), a reward redeemer to its own directive's reward account
+(index among the withdrawal keys) — and carries that block's data. -/
+theorem C08_redeemers_sound {env : CompileEnv} {t : Tx} {a : ATx} (h : compileAbs env t = .ok a) :
+    ∀ r ∈ a.redeemers,
+      (∃ i ∈ t.inputs, i.redeemer.isNone = false ∧ tryAsData i.redeemer = .ok r.2 ∧
+        ∃ refs, exprIntoUtxoRefs i.utxos = .ok refs ∧ ∃ u ∈ refs, r.1.1 = 0 ∧
+          (dedupAdj (sortBy txInLe a.inputs))[r.1.2]? = some (u.txid, u.index % 2^32)) ∨
+      (∃ m ∈ t.mints ++ t.burns, m.redeemer.isNone = false ∧ tryAsData m.redeemer = .ok r.2 ∧ r.1.1 = 1 ∧
+        ∃ cs, exprIntoAssets m.amount = .ok cs ∧ ∃ p, (mintPolicies a.mint)[r.1.2]? = some p ∧
+          ∃ pe ∈ cs, ∃ pb, exprIntoBytes pe = .ok pb ∧ bytesIntoHash 28 pb = .ok p) ∨
+      (∃ d ∈ t.adhoc, adhocName d = "withdrawal" ∧ ∃ re, adhocGet d "redeemer" = some re ∧
+        tryAsData re = .ok r.2 ∧ r.1.1 = 3 ∧ ∃ cred acct, adhocGet d "credential" = some cred ∧
+          exprIntoRewardAccount env cred = .ok acct ∧ (a.withdrawals.map (·.1))[r.1.2]? = some acct) := by
+  have parts := compileAbs_ok h
+  obtain ⟨s, m, b, w, hs, hm, hb, hw, _, hall⟩ :=
+    C08_map_exact env t a.inputs a.mint a.withdrawals a.redeemers parts.redeemers
+  intro r hr
+  have := hall r hr
+  simp only [List.mem_append] at this
+  rcases this with ((h1 | h1) | h1) | h1
+  · exact Or.inl (C08_spend_sound hs r h1)
+  · obtain ⟨mm, hmm, rest⟩ := C08_mint_sound hm r h1
+    exact Or.inr (Or.inl ⟨mm, List.mem_append_left _ hmm, rest⟩)
+  · obtain ⟨mm, hmm, rest⟩ := C08_mint_sound hb r h1
+    exact Or.inr (Or.inl ⟨mm, List.mem_append_right _ hmm, rest⟩)
+  · exact Or.inr (Or.inr (C08_reward_sound hw r h1))
+
 end Tx3
